@@ -32,6 +32,7 @@
 
 #include <fstream>
 #include <algorithm>
+#include <cstdlib>
 
 #include "simulation.h"
 #include "manager_cell.h"
@@ -466,6 +467,8 @@ void Simulation::setup()
   }
   else {
     m_rng.setSeed(RNG_DEFAULT_SEED);
+    // the expression function 'uran' draws from rand(), which main() seeds with the clock
+    srand(RNG_DEFAULT_SEED);
     MSG_DEBUG("Simulation::setup", "NOT randomizing");
   }
 
